@@ -244,3 +244,13 @@ Proof.
   { apply ln_increasing; [generalize (exp_pos z) (exp_pos (l - IZR it' / IZR nlive)); lra|lra]. }
   lra.
 Qed.
+
+(* closed form: the condition depends on the state only through logLmax - it / nlive - logZ *)
+Lemma stdcond_closed z l it nlive :
+  stdcond_R z l it nlive = ln (1 + exp (l - IZR it / IZR nlive - z)).
+Proof.
+  unfold stdcond_R. set (a := l - IZR it / IZR nlive).
+  replace (exp z + exp a) with (exp z * (1 + exp (a - z))).
+  - rewrite ln_mult; [rewrite ln_exp; lra|apply exp_pos|generalize (exp_pos (a - z)); lra].
+  - rewrite Rmult_plus_distr_l, Rmult_1_r, <- exp_plus. f_equal. f_equal. lra.
+Qed.
